@@ -60,6 +60,7 @@ DEFAULT_KNOBS = dict(
     p_assign_style=0.3,
     p_multi_group_name=0.0,
     p_from_any=0.0,
+    p_event_obj=0.0,
     p_attach_style=0.0,
     p_awaitable=0.0,
     p_prop_guard=0.0,
@@ -202,6 +203,8 @@ def gen_program(rnd, k, idx=0, name=None):
         if len(t["events"]) == 1 and rnd.random() < k["p_assign_style"] and t["events"][0] not in seen_assign:
             t["assign"] = t["events"][0]
             seen_assign.add(t["events"][0])
+            if rnd.random() < k["p_event_obj"]:
+                t["assign_event"] = True
     events = [e for e in events if any(e in t["events"] for t in trans + anyd)]
     prog["events"] = events
 
